@@ -406,7 +406,8 @@ class Ctx:
     def violation(self, key, what, case, impl=None, expected=None, replay_cmd=None):
         """the property's own predicate fails on the REAL code for `case`"""
         self.count("oracle_failures")
-        if len(self.violations) < 20:
+        # keep at most 3 per key (so a recurring known finding cannot crowd other failures out), 200 in all
+        if sum(1 for v in self.violations if v["key"] == key) < 3 and len(self.violations) < 200:
             self.violations.append({"key": key, "what": what, "case": case, "impl": impl, "expected": expected,
                                     "replay_cmd": replay_cmd})
 
